@@ -709,6 +709,8 @@ func main() {
 	rich := hx.NewStream("rich", "model.Softwrap", "rich_case", "c16_rich_mismatches", "c16_rich_violations")
 	hard := hx.NewStream("hard", "model.Softwrap", "hard_case", "c16_hard_mismatches", "c16_hard_violations")
 	draw := hx.NewStream("draw", "model.Softwrap", "draw_case", "c16_draw_mismatches", "c16_draw_violations")
+	// recorded finding: a zero-width grapheme shares its column with the next one and is overwritten
+	draw.Known, draw.KnownClass = "c16_draw_known", "zero-width-overdraw"
 	plain.ShardMax, rich.ShardMax, hard.ShardMax, draw.ShardMax = 150, 150, 500, 300
 	skipped := 0
 
